@@ -4,6 +4,7 @@ import RavenModel.Model.SeqSet
 import RavenModel.Model.Flags
 import RavenModel.Model.Mail
 import RavenModel.Model.Lmtp
+import RavenModel.Model.Policy
 /-! Line protocol: one op per line (`op arg …`, byte-string args hex encoded, `-` = empty, `.` = empty list),
 one canonical line out. Stateful ops (`m.*`) act on the driver's mailbox-machine state. -/
 open Raven
@@ -72,6 +73,26 @@ def opsC16 : List String → Option String
     some (natList (Lmtp.run ⟨mx.toNat!, mr.toNat!⟩ env (unhex stream)))
   | ["l.rcpt", a] => some (match Lmtp.parseRcptTo (unhex a) with | some t => "some " ++ hexOut t | none => "none")
   | ["l.mail", a] => some (match Lmtp.parseMailFrom (unhex a) with | some t => "some " ++ hexOut t | none => "none")
+  | _ => none
+
+def optB (s : String) : Option Bytes := if s = "~" then none else some (unhex s)
+
+/-- delivery policy: `p.rcpt allowed… | rejectUnknown maxRcpt count addr isRole userIn` -/
+def opsC17 : List String → Option String
+  | ["p.rcpt", allowed, rej, mr, cnt, addr, isRole, userIn] =>
+    let al := if allowed = "." then [] else (allowed.splitOn ",").map unhex
+    let cfg : Policy.Cfg := ⟨al, rej = "1", mr.toNat!, 0, false, 0, []⟩
+    let dir : Policy.Dir := ⟨fun _ _ => userIn = "1", fun _ _ => false, fun _ => isRole = "1"⟩
+    some (toString (Policy.rcptImpl cfg dir cnt.toNat! (unhex addr)))
+  | ["p.folder", dflt, rs, ss] =>
+    some (hexOut (Policy.targetFolder ⟨[], false, 0, 0, false, 0, unhex dflt⟩ (optB rs) (optB ss)))
+  | ["p.owner", addr, isRole, disabled] =>
+    let dir : Policy.Dir := ⟨fun _ _ => false, fun _ _ => disabled = "1", fun _ => isRole = "1"⟩
+    some (match Policy.targetOwner dir (unhex addr) with
+      | none => "none"
+      | some (.role a) => "role:" ++ hexOut a
+      | some (.user l d) => "user:" ++ hexOut l ++ "@" ++ hexOut d)
+  | ["p.size", mx, sz] => some (boolS (Policy.sizeOk ⟨[], false, 0, mx.toNat!, false, 0, []⟩ sz.toNat!))
   | _ => none
 
 /-! mailbox machine -/
@@ -167,7 +188,7 @@ def step (st : Mail.Store) (line : String) : Mail.Store × String :=
   match opsMail st args with
   | some r => r
   | none =>
-    match (opsC18 args <|> opsC09 args <|> opsC10 args <|> opsC16 args) with
+    match (opsC18 args <|> opsC09 args <|> opsC10 args <|> opsC16 args <|> opsC17 args) with
     | some r => (st, r)
     | none => (st, "bad-op")
 
